@@ -120,7 +120,10 @@ def run_jobs(specs, timeout=1200):
         w, key, binary, args, lines, idx = c
         ch = [lines[k] for k in idx]
         try:
-            rc, out, err = common.sh([binary] + args, inp="\n".join(ch) + "\n", timeout=timeout)
+            # the extracted mirror recurses over lists: give the MODEL (never the implementation) an
+            # unlimited stack, so that a large production graph is judged instead of "died"
+            pre = common._model_prefix(binary)
+            rc, out, err = common.sh(pre + [binary] + args, inp="\n".join(ch) + "\n", timeout=timeout)
         except Exception:                            # the process hung
             return key, idx, ["%s = died" % l for l in ch]
         res = [l for l in out.split("\n") if l]
